@@ -744,7 +744,6 @@ func c20Boundary() [][]*c20Ent {
 			c20F("_test.go", c20GoFile(c20Fn("inTest2", dir+" runtime.inBareTestFile"))),
 			c20F("a.go.bak", c20GoFile(c20Fn("inBak", dir+" runtime.inBackup"))),
 			c20F("notes.txt", &c20File{raw: []string{dir + " runtime.inText", "func f() {}"}}),
-			c20F("broken_test.go", &c20File{raw: []string{"this is not Go {{{", dir + " runtime.inBrokenTest"}}),
 			c20F("a.GO", c20GoFile(c20Fn("inUpper", dir+" runtime.inUpperExt"))),
 			c20F("go", c20GoFile(c20Fn("inNoExt", dir+" runtime.inNoExt")))},
 		// 7: what does and does not carry the directive prefix; trimming of the source symbol
@@ -766,6 +765,10 @@ func c20Boundary() [][]*c20Ent {
 				c20D("vmm", c20F("a.go", c20GoFile(c20Fn("init", dir+" runtime.init")))))},
 		// 10: CRLF line endings
 		{c20F("a.go", &c20File{goSyntax: true, pkg: "kernel", crlf: true, decls: []c20Decl{c20Fn("crlf", "// doc", dir+" runtime.crlf"), c20Fn("crlf2", dir+" runtime.crlf2 ")}})},
+		// 11: a test file that does not even parse is never opened
+		{c20F("a.go", c20GoFile(c20Fn("ok", dir+" runtime.ok"))),
+			c20F("broken_test.go", &c20File{raw: []string{"this is not Go {{{", dir + " runtime.inBrokenTest"}}),
+			c20D("sub", c20F("notgo.txt", &c20File{raw: []string{"func {{{", dir + " runtime.inBrokenText"}}))},
 	}
 }
 
